@@ -57,12 +57,12 @@ pub fn run(ctx: &Ctx) -> i32 {
             acc.inc("expressions");
             acc.nontrivial(&("x", fi, pi));
             // documented shape: subject = function leaf (tag 40006), one assertion per distinct (parameter, value)
-            if !matches!(bind::observe(&env.subject()), bind::O::Leaf(_, ref b) if b.starts_with(&[0xd9, 0x9c, 0x46])) { acc.viol("C18|expression|shape|subject-not-a-function", "expression subject is not a tagged function", cid("shape"), json!({"got": env.format_flat()})) }
+            if !matches!(bind::observe(&env.subject()), bind::O::Leaf(_, ref b) if b.starts_with(&[0xd9, 0x9c, 0x46])) { acc.viol("C18|expression|shape|subject-not-a-function", "expression subject is not a tagged function", cid("shape"), json!({"got": crate::report::ff(&env)})) }
             for (lbl, e2) in [("direct", Some(env.clone())), ("serialized", via(&env))] {
                 acc.inc("roundtrips");
                 match catch(|| e2.clone().map(Expression::try_from)) {
-                    Ok(Some(Ok(b))) => if b != ex { acc.viol("C18|expression|roundtrip|not-equal", "parsed expression differs from the original", cid(lbl), json!({"envelope": env.format_flat()})) },
-                    Ok(Some(Err(er))) => acc.viol("C18|expression|roundtrip|rejected", format!("{er}"), cid(lbl), json!({"envelope": env.format_flat()})),
+                    Ok(Some(Ok(b))) => if b != ex { acc.viol("C18|expression|roundtrip|not-equal", "parsed expression differs from the original", cid(lbl), json!({"envelope": crate::report::ff(&env)})) },
+                    Ok(Some(Err(er))) => acc.viol("C18|expression|roundtrip|rejected", format!("{er}"), cid(lbl), json!({"envelope": crate::report::ff(&env)})),
                     Ok(None) => acc.viol("C18|expression|roundtrip|not-decodable", "serialisation does not decode", cid(lbl), json!({})),
                     Err(p) => if p.loc.contains("queries.rs") { acc.inc("panics_counted_under_C16") } else { acc.viol(format!("C18|expression|panic|{}", p.loc), p.msg.clone(), cid(lbl), json!({})) },
                 }
@@ -80,10 +80,10 @@ pub fn run(ctx: &Ctx) -> i32 {
                     let renv: Envelope = rq.clone().into();
                     for (lbl, e2) in [("direct", Some(renv.clone())), ("serialized", via(&renv))] {
                         acc.inc("roundtrips");
-                        match catch(|| e2.clone().map(Request::try_from)) { Ok(Some(Ok(b))) => if b != rq { acc.viol("C18|request|roundtrip|not-equal", "parsed request differs", cid2(lbl), json!({"envelope": renv.format_flat()})) }, Ok(Some(Err(er))) => acc.viol("C18|request|roundtrip|rejected", format!("{er}"), cid2(lbl), json!({"envelope": renv.format_flat()})), Ok(None) => acc.viol("C18|request|roundtrip|not-decodable", "", cid2(lbl), json!({})), Err(p) => acc.viol(format!("C18|request|panic|{}", p.loc), p.msg.clone(), cid2(lbl), json!({})) }
+                        match catch(|| e2.clone().map(Request::try_from)) { Ok(Some(Ok(b))) => if b != rq { acc.viol("C18|request|roundtrip|not-equal", "parsed request differs", cid2(lbl), json!({"envelope": crate::report::ff(&renv)})) }, Ok(Some(Err(er))) => acc.viol("C18|request|roundtrip|rejected", format!("{er}"), cid2(lbl), json!({"envelope": crate::report::ff(&renv)})), Ok(None) => acc.viol("C18|request|roundtrip|not-decodable", "", cid2(lbl), json!({})), Err(p) => acc.viol(format!("C18|request|panic|{}", p.loc), p.msg.clone(), cid2(lbl), json!({})) }
                     }
                     let subj_ok = matches!(bind::observe(&renv.subject()), bind::O::Leaf(_, ref b) if b.starts_with(&[0xd9, 0x9c, 0x44]));
-                    if !subj_ok || count(&renv, known_values::BODY) != 1 || count(&renv, known_values::NOTE) != (!note.is_empty()) as usize || count(&renv, known_values::DATE) != d.is_some() as usize { acc.viol("C18|request|shape", "request envelope does not have the documented shape (tagged ARID subject, one 'body', 'note' only when non-empty, 'date' only when present)", cid2("shape"), json!({"got": renv.format_flat()})) }
+                    if !subj_ok || count(&renv, known_values::BODY) != 1 || count(&renv, known_values::NOTE) != (!note.is_empty()) as usize || count(&renv, known_values::DATE) != d.is_some() as usize { acc.viol("C18|request|shape", "request envelope does not have the documented shape (tagged ARID subject, one 'body', 'note' only when non-empty, 'date' only when present)", cid2("shape"), json!({"got": crate::report::ff(&renv)})) }
                     // wrong expected function
                     if let Ok(true) = catch(|| Request::try_from((renv.clone(), Some(&Function::from("never-this")))).is_ok()) { acc.viol("C18|request|expected-function|accepts-other", "", cid2("expect"), json!({})) }
                     // Event
@@ -92,10 +92,10 @@ pub fn run(ctx: &Ctx) -> i32 {
                     let eenv: Envelope = ev.clone().into();
                     for (lbl, e2) in [("direct", Some(eenv.clone())), ("serialized", via(&eenv))] {
                         acc.inc("roundtrips");
-                        match catch(|| e2.clone().map(Event::<Envelope>::try_from)) { Ok(Some(Ok(b))) => if b != ev { acc.viol("C18|event|roundtrip|not-equal", "parsed event differs", cid2(lbl), json!({"envelope": eenv.format_flat()})) }, Ok(Some(Err(er))) => acc.viol("C18|event|roundtrip|rejected", format!("{er}"), cid2(lbl), json!({"envelope": eenv.format_flat()})), Ok(None) => acc.viol("C18|event|roundtrip|not-decodable", "", cid2(lbl), json!({})), Err(p) => acc.viol(format!("C18|event|panic|{}", p.loc), p.msg.clone(), cid2(lbl), json!({})) }
+                        match catch(|| e2.clone().map(Event::<Envelope>::try_from)) { Ok(Some(Ok(b))) => if b != ev { acc.viol("C18|event|roundtrip|not-equal", "parsed event differs", cid2(lbl), json!({"envelope": crate::report::ff(&eenv)})) }, Ok(Some(Err(er))) => acc.viol("C18|event|roundtrip|rejected", format!("{er}"), cid2(lbl), json!({"envelope": crate::report::ff(&eenv)})), Ok(None) => acc.viol("C18|event|roundtrip|not-decodable", "", cid2(lbl), json!({})), Err(p) => acc.viol(format!("C18|event|panic|{}", p.loc), p.msg.clone(), cid2(lbl), json!({})) }
                     }
                     let esub = matches!(bind::observe(&eenv.subject()), bind::O::Leaf(_, ref b) if b.starts_with(&[0xd9, 0x9c, 0x5a]));
-                    if !esub || count(&eenv, known_values::CONTENT) != 1 || count(&eenv, known_values::NOTE) != (!note.is_empty()) as usize || count(&eenv, known_values::DATE) != d.is_some() as usize { acc.viol("C18|event|shape", "event envelope does not have the documented shape", cid2("shape"), json!({"got": eenv.format_flat()})) }
+                    if !esub || count(&eenv, known_values::CONTENT) != 1 || count(&eenv, known_values::NOTE) != (!note.is_empty()) as usize || count(&eenv, known_values::DATE) != d.is_some() as usize { acc.viol("C18|event|shape", "event envelope does not have the documented shape", cid2("shape"), json!({"got": crate::report::ff(&eenv)})) }
                     // malformed variants of request and event: single mutations (wrong tag / missing or duplicated body|content must be rejected)
                     if fi < 2 && pi < 3 {
                         for (mn, mf) in mutators(id) {
@@ -106,7 +106,7 @@ pub fn run(ctx: &Ctx) -> i32 {
                                 let tagok = matches!(bind::observe(&m.subject()), bind::O::Leaf(_, ref b) if b.starts_with(if ty == "request" { &[0xd9, 0x9c, 0x44] } else { &[0xd9, 0x9c, 0x5a] }));
                                 let must_reject = !tagok || count(&m, key) != 1;
                                 let r = if ty == "request" { catch(|| Request::try_from(m.clone()).is_ok()) } else { catch(|| Event::<Envelope>::try_from(m.clone()).is_ok()) };
-                                match r { Ok(true) if must_reject => acc.viol(format!("C18|{ty}|accepts-malformed|{mn}"), "a malformed envelope was accepted", cid2(&format!("{ty}-{mn}")), json!({"envelope": m.format_flat()})), Ok(_) => {}, Err(_) => acc.inc("panics_counted_under_C16") }
+                                match r { Ok(true) if must_reject => acc.viol(format!("C18|{ty}|accepts-malformed|{mn}"), "a malformed envelope was accepted", cid2(&format!("{ty}-{mn}")), json!({"envelope": crate::report::ff(&m)})), Ok(_) => {}, Err(_) => acc.inc("panics_counted_under_C16") }
                             }
                         }
                     }
@@ -128,10 +128,10 @@ pub fn run(ctx: &Ctx) -> i32 {
         let env: Envelope = r.clone().into();
         for (lbl, e2) in [("direct", Some(env.clone())), ("serialized", via(&env))] {
             acc.inc("roundtrips");
-            match catch(|| e2.clone().map(Response::try_from)) { Ok(Some(Ok(b))) => if b != *r { acc.viol("C18|response|roundtrip|not-equal", "parsed response differs", format!("resp{ri}/{lbl}"), json!({"envelope": env.format_flat()})) }, Ok(Some(Err(er))) => acc.viol("C18|response|roundtrip|rejected", format!("{er}"), format!("resp{ri}/{lbl}"), json!({"envelope": env.format_flat()})), Ok(None) => acc.viol("C18|response|roundtrip|not-decodable", "", format!("resp{ri}/{lbl}"), json!({})), Err(p) => acc.viol(format!("C18|response|panic|{}", p.loc), p.msg.clone(), format!("resp{ri}/{lbl}"), json!({})) }
+            match catch(|| e2.clone().map(Response::try_from)) { Ok(Some(Ok(b))) => if b != *r { acc.viol("C18|response|roundtrip|not-equal", "parsed response differs", format!("resp{ri}/{lbl}"), json!({"envelope": crate::report::ff(&env)})) }, Ok(Some(Err(er))) => acc.viol("C18|response|roundtrip|rejected", format!("{er}"), format!("resp{ri}/{lbl}"), json!({"envelope": crate::report::ff(&env)})), Ok(None) => acc.viol("C18|response|roundtrip|not-decodable", "", format!("resp{ri}/{lbl}"), json!({})), Err(p) => acc.viol(format!("C18|response|panic|{}", p.loc), p.msg.clone(), format!("resp{ri}/{lbl}"), json!({})) }
         }
         let is_resp_tag = matches!(bind::observe(&env.subject()), bind::O::Leaf(_, ref b) if b.starts_with(&[0xd9, 0x9c, 0x45]));
-        if !is_resp_tag || count(&env, known_values::RESULT) + count(&env, known_values::ERROR) != 1 { acc.viol("C18|response|shape", "response envelope does not have the documented shape", format!("resp{ri}/shape"), json!({"got": env.format_flat()})) }
+        if !is_resp_tag || count(&env, known_values::RESULT) + count(&env, known_values::ERROR) != 1 { acc.viol("C18|response|shape", "response envelope does not have the documented shape", format!("resp{ri}/shape"), json!({"got": crate::report::ff(&env)})) }
         acc.nontrivial(&("r", ri));
         if ri >= 20 && !th { continue }
         let mut frontier: Vec<(Envelope, String)> = vec![(env.clone(), String::new())];
@@ -146,7 +146,7 @@ pub fn run(ctx: &Ctx) -> i32 {
                     let tagok = matches!(bind::observe(&m.subject()), bind::O::Leaf(_, ref b) if b.starts_with(&[0xd9, 0x9c, 0x45]));
                     let must_reject = !tagok || (nr > 0 && ne > 0) || (nr == 0 && ne == 0);
                     match catch(|| Response::try_from(m.clone()).is_ok()) {
-                        Ok(true) if must_reject => acc.viol(format!("C18|response|accepts-malformed|{}", if !tagok { "wrong-subject-tag".to_string() } else { format!("results={}-errors={}", nr.min(2), ne.min(2)) }), "a response envelope with both or neither of result and error, or a wrongly tagged subject, was accepted", format!("resp{ri}{p2}"), json!({"envelope": m.format_flat(), "results": nr, "errors": ne})),
+                        Ok(true) if must_reject => acc.viol(format!("C18|response|accepts-malformed|{}", if !tagok { "wrong-subject-tag".to_string() } else { format!("results={}-errors={}", nr.min(2), ne.min(2)) }), "a response envelope with both or neither of result and error, or a wrongly tagged subject, was accepted", format!("resp{ri}{p2}"), json!({"envelope": crate::report::ff(&m), "results": nr, "errors": ne})),
                         Ok(_) => {}
                         Err(_) => acc.inc("panics_counted_under_C16"),
                     }
